@@ -88,9 +88,9 @@ def restrict(draw: Any, spec: Spec, profile: str) -> None:
         if not spec.enums:
             spec.enums.append(mmgen.Enm("Only_kind", [("Only_one", "only-one"), ("Other", "Other")]))
             spec.order.insert(0, ("enum", "Only_kind"))
-        # ... nor parse for primitive constants ("public static const", recorded under C20)
-        # ... nor for constant sets of int (Set<Long> built from Integer literals)
-        gone = {c.name for c in spec.consts if not c.kind.startswith("set_") or c.kind == "set_int"}
+        # ... nor for int / float constants (Long x = 13; Float x = 2.25;) and constant sets of int
+        # (Set<Long> built from Integer literals)
+        gone = {c.name for c in spec.consts if c.kind in ("int", "float", "set_int")}
         spec.consts = [c for c in spec.consts if c.name not in gone]
         spec.order = [o for o in spec.order if not (o[0] == "const" and o[1] in gone)]
         for c in spec.classes:
